@@ -1050,6 +1050,12 @@ def damm(rep):
     ok_shape = b0 is not None and loop is not None and isinstance(body[1], ast.Assign) and len(body[1].targets) == 1 and isinstance(body[1].targets[0], ast.Name) \
         and isinstance(body[1].value, ast.Constant) and isinstance(loop.target, ast.Name) and src(loop.iter) in ('str(%s)' % num, num) and not loop.orelse \
         and isinstance(body[3], ast.Return) and src(body[3].value) == body[1].targets[0].id
+    if not ok_shape and b0 is not None and loop is not None and isinstance(loop.target, ast.Name) and src(loop.iter).startswith(('str(%s).' % num, '%s.' % num)) \
+            and isinstance(loop.iter, ast.Call) and isinstance(loop.iter.func, ast.Attribute) and loop.iter.func.attr in ('strip', 'lstrip', 'rstrip', 'replace'):
+        rep.fail('ALG.per-character', relpath, 'checksum', src(loop.iter), loop.lineno,
+                 'checksum() drops characters (%s) before the fold: strings that differ in the dropped positions share a checksum, and the check digit '
+                 'generated for a payload ending in such a character is the one of the shortened payload' % src(loop.iter))
+        return
     if not ok_shape:
         raise AnalysisError('%s:%d checksum() is not the table fold the rule understands' % (relpath, ck.lineno))
     t = consts.get(b0['V_T'].id)
